@@ -693,6 +693,9 @@ theorem inv_step (cfg : Cfg) (hcfg : cfg.checkQuestion = true) (s : St) (a : Act
   | evict k => exact inv_step_evict cfg s k hi
   | respell k sp => exact inv_step_respell cfg s k sp hi
   | refresh i sch rounds => exact inv_step_refresh cfg hcfg s i sch rounds hi
+  | gone i =>
+    obtain ⟨h1, h2, h3, h4, h5, h6, h7, h8, h9, h10, h11, h12, h13⟩ := hi
+    exact ⟨h1, h2, h3, h4, h5, h6, h7, h8, h9, h10, h11, h12, h13⟩
 
 theorem inv_run (cfg : Cfg) (hcfg : cfg.checkQuestion = true) (as : List Act) :
     ∀ s, Inv s → Inv (run cfg s as) := by
